@@ -1108,9 +1108,11 @@ pub fn run(a: &Args) {
         coq_cases.push(o.coq);
     }
     rep.distinct_nontrivial = distinct.len() as u64;
-    rep.rule = "cases are histories on one contract. Non-trivial = distinct (kind, stage list, step) where the step is an instantiate, an execute sent by an admin that the kind knows, or a full clock observation (ActiveStage, ActiveStageId, IsActive, HasStarted, HasEnded, Config, HasMember and Member for every probe) at one boundary instant; parse rejections and non-admin senders are not counted.".into();
+    rep.rule = "evaluations = implementation steps (instantiate / execute / one clock observation) over all histories, each history on one contract. Non-trivial = distinct (kind, stage list, step) where the step is an instantiate, an execute sent by an admin that the kind knows, or a full clock observation (ActiveStage, ActiveStageId, IsActive, HasStarted, HasEnded, Config, HasMember and Member for every probe) at one boundary instant; parse rejections and non-admin senders are not counted.".into();
     rep.notes.push(format!("{} implementation steps (instantiate/execute/clock observations) in {} histories", impl_steps, cases.len()));
     out.write_cases("C13", "From LP Require Import Prelude Stages C13Corr.", "c13_case", "c13_check", &coq_cases, 6, &mut rep);
+    let histories = rep.evaluations;
+    rep.evaluations = impl_steps; // evidence counts implementation steps, like distinct_nontrivial does
     out.finish(&rep);
-    println!("C13 harness: {} histories, {} implementation steps, {} monitor violations", rep.evaluations, impl_steps, nviol);
+    println!("C13 harness: {} histories, {} implementation steps, {} monitor violations", histories, impl_steps, nviol);
 }
